@@ -12,8 +12,8 @@ pub enum T { L(String), N(String, Vec<T>) }
 impl T {
     pub fn show(&self) -> String { match self { T::L(s) => s.clone(), T::N(k, c) => format!("({}{})", k, c.iter().map(|x| format!(" {}", x.show())).collect::<String>()) } }
 }
-fn n(k: &str, c: Vec<T>) -> T { T::N(k.to_string(), c) }
-fn l(s: impl Into<String>) -> T { T::L(s.into()) }
+pub fn n(k: &str, c: Vec<T>) -> T { T::N(k.to_string(), c) }
+pub fn l(s: impl Into<String>) -> T { T::L(s.into()) }
 
 /// operator spellings (upper-case token texts) and the operator id whose binding powers apply
 fn op_table(b: B) -> Vec<(Vec<&'static str>, u32)> {
@@ -33,18 +33,19 @@ fn op_table(b: B) -> Vec<(Vec<&'static str>, u32)> {
 
 const STMT_START: [&str; 6] = ["SELECT", "WITH", "INSERT", "REPLACE", "UPDATE", "DELETE"];
 
-pub struct P<'a> { b: B, t: &'a [Tok], i: usize, ops: Vec<(Vec<&'static str>, u32)> }
-type R<X> = Result<X, String>;
+pub struct P<'a> { pub b: B, pub t: &'a [Tok], pub i: usize, ops: Vec<(Vec<&'static str>, u32)> }
+pub type R<X> = Result<X, String>;
 
 impl<'a> P<'a> {
-    fn err<X>(&self, m: &str) -> R<X> { Err(format!("{m} at token {} ({})", self.i, self.t.get(self.i).map(|t| format!("{t:?}")).unwrap_or("end".into()))) }
-    fn text(&self, k: usize) -> Option<String> { match self.t.get(self.i + k) { Some(Tok::Word(w)) => Some(w.to_ascii_uppercase()), Some(Tok::Punct(p)) => Some(p.clone()), _ => None } }
-    fn is(&self, w: &str) -> bool { self.text(0).as_deref() == Some(w) }
-    fn is_seq(&self, ws: &[&str]) -> bool { ws.iter().enumerate().all(|(k, w)| self.text(k).as_deref() == Some(*w)) }
-    fn eat(&mut self, w: &str) -> bool { if self.is(w) { self.i += 1; true } else { false } }
-    fn eat_seq(&mut self, ws: &[&str]) -> bool { if self.is_seq(ws) { self.i += ws.len(); true } else { false } }
-    fn expect(&mut self, w: &str) -> R<()> { if self.eat(w) { Ok(()) } else { self.err(&format!("expected {w}")) } }
-    fn ident(&mut self) -> R<String> { match self.t.get(self.i) { Some(Tok::Ident(s)) => { self.i += 1; Ok(s.clone()) } _ => self.err("expected a quoted identifier") } }
+    pub fn new(b: B, t: &'a [Tok]) -> Self { P { b, t, i: 0, ops: op_table(b) } }
+    pub fn err<X>(&self, m: &str) -> R<X> { Err(format!("{m} at token {} ({})", self.i, self.t.get(self.i).map(|t| format!("{t:?}")).unwrap_or("end".into()))) }
+    pub fn text(&self, k: usize) -> Option<String> { match self.t.get(self.i + k) { Some(Tok::Word(w)) => Some(w.to_ascii_uppercase()), Some(Tok::Punct(p)) => Some(p.clone()), _ => None } }
+    pub fn is(&self, w: &str) -> bool { self.text(0).as_deref() == Some(w) }
+    pub fn is_seq(&self, ws: &[&str]) -> bool { ws.iter().enumerate().all(|(k, w)| self.text(k).as_deref() == Some(*w)) }
+    pub fn eat(&mut self, w: &str) -> bool { if self.is(w) { self.i += 1; true } else { false } }
+    pub fn eat_seq(&mut self, ws: &[&str]) -> bool { if self.is_seq(ws) { self.i += ws.len(); true } else { false } }
+    pub fn expect(&mut self, w: &str) -> R<()> { if self.eat(w) { Ok(()) } else { self.err(&format!("expected {w}")) } }
+    pub fn ident(&mut self) -> R<String> { match self.t.get(self.i) { Some(Tok::Ident(s)) => { self.i += 1; Ok(s.clone()) } _ => self.err("expected a quoted identifier") } }
     fn at_stmt(&self) -> bool { STMT_START.iter().any(|w| self.is(w)) }
 
     // ---------------------------------------------------------------- expressions
@@ -78,7 +79,7 @@ impl<'a> P<'a> {
         self.expect("END")?;
         Ok(n("case", v))
     }
-    fn primary(&mut self) -> R<T> {
+    pub fn primary(&mut self) -> R<T> {
         match self.t.get(self.i).cloned() {
             Some(Tok::Param(_)) => { self.i += 1; Ok(l("param")) }
             Some(Tok::Num(s)) => { self.i += 1; Ok(l(format!("num:{}", Self::num(&s)))) }
@@ -154,7 +155,7 @@ impl<'a> P<'a> {
     fn exprs(&mut self) -> R<Vec<T>> { let mut v = vec![self.expr(0)?]; while self.eat(",") { v.push(self.expr(0)?); } Ok(v) }
 
     // ---------------------------------------------------------------- clauses
-    fn table_name(&mut self) -> R<T> {
+    pub fn table_name(&mut self) -> R<T> {
         let mut parts = vec![self.ident()?];
         while self.eat(".") { parts.push(self.ident()?); }
         let mut v = vec![l(format!("name:{}", parts.join("\u{1}")))];
